@@ -410,4 +410,43 @@ theorem floydWalk_ok (n : Nat) (link : Tbl (List Lk)) (S : FloydSt) (hlink : S.l
       rw [hopsLen_append, hlen']
       simp only [hopsLen_cons, hopsLen_nil]; omega
 
+/- ---------------------------------------------------------------- chains of stored one-hop routes -/
+
+/-- chain of stored one-hop routes -/
+def HopChain (link : Tbl (List Lk)) : Nat → List (Nat × Nat × List Lk) → Nat → Prop
+  | a, [], b => a = b
+  | a, (p, q, l) :: hs, b => p = a ∧ link p q = some l ∧ HopChain link q hs b
+
+/-- a non-empty chain of declared one-hop routes is a chain of the specification (`walkCost`), of the same link count,
+through nodes < n -/
+theorem hopChain_walkCost (n : Nat) (s : FloydSt) (h : WellDecl n s) : ∀ (hops : List (Nat × Nat × List Lk)) (a b : Nat),
+    hops ≠ [] → HopChain s.link a hops b →
+    ∃ mid, (∀ m ∈ mid, m < n) ∧ walkCost s.cost a mid b = some (hopsLen hops) := by
+  intro hops
+  induction hops with
+  | nil => intro a b hne _; exact absurd rfl hne
+  | cons x xs ih =>
+    intro a b _ hc
+    obtain ⟨p, q, l⟩ := x
+    obtain ⟨hp, hl, hrest⟩ := hc
+    subst hp
+    have hw : s.cost p q = some l.length := by rw [h.cost, hl]; rfl
+    cases xs with
+    | nil =>
+      simp only [HopChain] at hrest
+      subst hrest
+      exact ⟨[], by simp, by simp [walkCost, hw, hopsLen]⟩
+    | cons y ys =>
+      obtain ⟨mid, hm, hwc⟩ := ih q b (by simp) hrest
+      have hq : q < n := by
+        apply Nat.lt_of_not_le
+        intro hge
+        rw [h.inside p q (Or.inr hge)] at hl; cases hl
+      refine ⟨q :: mid, ?_, ?_⟩
+      · intro m hm'
+        rcases List.mem_cons.mp hm' with e | e
+        · omega
+        · exact hm m e
+      · simp only [walkCost, hw, hwc, optAdd, hopsLen_cons]
+
 end SgVerif.C25
